@@ -547,6 +547,8 @@ class Guards:
         x = t[1] if t[0] == "discr" else None
         while x is not None and x[0] in ("cf",):
             x = x[1]
+        if x is not None:
+            x = conditional_opt(x)
         if x is None or x[0] != "opt" or len(x) < 3 or not x[2]:
             return []
         preds = [c[1] for c in x[2] if c[0] == "pred"]
@@ -900,7 +902,7 @@ def returned_only_if(ev, body, env, local):
     t = cons[0]["term"]
     if len(t["args"]) != 2:
         return None
-    recv = ev.operand(env, t["args"][0], (cons[0]["block"], None))
+    recv = conditional_opt(ev.operand(env, t["args"][0], (cons[0]["block"], None)))
     if recv[0] == "opt" and len(recv) >= 3 and not recv[2]:
         # the receiver is known to be present here (e.g. the condition folded to `true` for this enum variant):
         # the error value is built but can never be handed on
@@ -910,6 +912,16 @@ def returned_only_if(ev, body, env, local):
         if c[0] == "pred":
             return [(c[1], False)]
     return None
+
+
+def conditional_opt(t):
+    """`φ[none | opt(v, conds)]` with non-empty conds says no more than `opt(v, conds)`: a value that is present
+    under its conditions and absent otherwise"""
+    if t[0] == "phi":
+        alts = [a for a in t[1] if a != ("none",)]
+        if len(alts) == 1 and len(alts) < len(t[1]) and alts[0][0] == "opt" and len(alts[0]) >= 3 and alts[0][2]:
+            return alts[0]
+    return t
 
 
 def never_holds(conds):
